@@ -49,6 +49,21 @@ CHECKS = {
              "exhaustive carry-pattern case split, not by path enumeration.",
         technique="abstract interpretation of -O2 LLVM IR in a polynomial domain (div/mod as hash-consed atoms) + compile-time witnesses",
     ),
+    "C03": dict(
+        engine="witness", category="other",
+        text=("Necessary conditions only. W03.inst: each of the 20 listed algorithms instantiates on every iterator kind (begin()/end() of arrays and of "
+              "transposed / rotated / strided / sliced / sub-block / reversed views for D = 1..3, rows and columns, elements() ranges; non-mutating "
+              "algorithms also on const ranges). W03.types: iterator typedef contract (random access, value_type is an owning independent value, "
+              "proxy assignable from value_type&& / const& / proxy, value_type constructible from and comparable with the proxy, rvalue proxies swappable). "
+              "R03.deep / R03.noshape / R03.owning: `*it = std::move(*jt)`, `*it = std::move(value)`, `std::iter_swap(it, jt)`, `value_type v(*it)`, swap and "
+              "move-assignment of sub-views reach the element-wise primitive on every path with a non-empty destination, never write the representation "
+              "of their operands, and the value is a freshly allocated owning array."),
+        design_ref="DESIGN.md 3/C03",
+        note=ANOTE + " Not decided: the results and returned positions of the algorithms (data-dependent control flow inside libstdc++) and that "
+             "elements outside the view are untouched. Ranges that cannot be formed on the pinned tree (strided / reversed of a const D>1 array) are "
+             "frozen as coverage gaps in checks/c03.py; any other range that stops compiling is reported as analysis-broken.",
+        technique="compile-time instantiation witnesses (clang front end) + effect rules over abstract-interpretation traces of -O0 LLVM IR",
+    ),
     "C04": dict(
         engine="mfacts", category="other",
         text=("Structural necessary conditions of value semantics, decided on every path of every copy / move / assignment / swap of static_array "
